@@ -1,0 +1,43 @@
+//go:build verif
+
+// Contracts (machine-checked specifications) for package action, read by /verif's govc.
+// This file contains comments only and compiles to nothing with or without the tag.
+
+package action
+
+//@ macro isBps(fi) = istype(fi.FeeType, "*types/controller/action.FeeInfo_BasisPoints_")
+//@ macro isAmt(fi) = istype(fi.FeeType, "*types/controller/action.FeeInfo_Amount_")
+//@ macro bpsOf(fi) = cast(fi.FeeType, "*types/controller/action.FeeInfo_BasisPoints_").BasisPoints.Value
+//@ macro amtOf(fi) = cast(fi.FeeType, "*types/controller/action.FeeInfo_Amount_").Amount.Value
+
+// validFeeInfo: what the property statement demands of an accepted fee entry.
+//@ macro validFeeInfo(fi) = fi != nil && okAddr(fi.Recipient) &&
+//@     (isBps(fi) || isAmt(fi)) &&
+//@     (isBps(fi) ==> cast(fi.FeeType, "*types/controller/action.FeeInfo_BasisPoints_") != nil && cast(fi.FeeType, "*types/controller/action.FeeInfo_BasisPoints_").BasisPoints != nil && 1 <= bpsOf(fi) && bpsOf(fi) <= 10000) &&
+//@     (isAmt(fi) ==> cast(fi.FeeType, "*types/controller/action.FeeInfo_Amount_") != nil && cast(fi.FeeType, "*types/controller/action.FeeInfo_Amount_").Amount != nil && okInt(amtOf(fi)) && parseInt(amtOf(fi)) > 0)
+
+//@ func validateBasisPoints(bps) (err)
+//@   ensures[C04] err == nil ==> bps != nil && 1 <= bps.Value && bps.Value <= 10000
+
+//@ func validateAmount(amt) (err)
+//@   ensures[C04] err == nil ==> amt != nil && okInt(amt.Value) && parseInt(amt.Value) > 0
+
+//@ func (f *FeeInfo) Validate() (err)
+//@   ensures[C04] err == nil ==> validFeeInfo(f)
+
+//@ func (f *FeeAttributes) Validate() (err)
+//@   loop 0 invariant[C04] forall k int :: 0 <= k && k < idx ==> validFeeInfo(f.FeesInfo[k])
+//@   ensures[C04] err == nil ==> f != nil && validFees(f.FeesInfo)
+
+// Fee of one entry computed on amount A (the property's formula), and finite sums over the at most
+// five entries an accepted fee action can carry.
+//@ macro feeOf(A, fi) = ite(isBps(fi), ite(A * bpsOf(fi) > 0, (A * bpsOf(fi)) / 10000, 0), ite(isAmt(fi), parseInt(amtOf(fi)), 0))
+//@ macro feeAt(A, fs, j) = ite(j < len(fs), feeOf(A, fs[j]), 0)
+//@ macro posAt(A, fs, j) = ite(j < len(fs) && feeOf(A, fs[j]) > 0, 1, 0)
+//@ macro sum5(A, fs) = feeAt(A, fs, 0) + feeAt(A, fs, 1) + feeAt(A, fs, 2) + feeAt(A, fs, 3) + feeAt(A, fs, 4)
+//@ macro npos5(A, fs) = posAt(A, fs, 0) + posAt(A, fs, 1) + posAt(A, fs, 2) + posAt(A, fs, 3) + posAt(A, fs, 4)
+//@ macro rank5(A, fs, k) = ite(0 < k, posAt(A, fs, 0), 0) + ite(1 < k, posAt(A, fs, 1), 0) + ite(2 < k, posAt(A, fs, 2), 0) + ite(3 < k, posAt(A, fs, 3), 0) + ite(4 < k, posAt(A, fs, 4), 0)
+//@ macro mulOvfAt(A, fs, j) = j < len(fs) && isBps(fs[j]) && abs(A * bpsOf(fs[j])) >= 2^256
+//@ macro mulOvf5(A, fs) = mulOvfAt(A, fs, 0) || mulOvfAt(A, fs, 1) || mulOvfAt(A, fs, 2) || mulOvfAt(A, fs, 3) || mulOvfAt(A, fs, 4)
+//@ macro validAt(fs, j) = j < len(fs) ==> validFeeInfo(fs[j])
+//@ macro validFees(fs) = len(fs) <= 5 && validAt(fs, 0) && validAt(fs, 1) && validAt(fs, 2) && validAt(fs, 3) && validAt(fs, 4)
